@@ -1045,6 +1045,9 @@ def gen_blob(rng, big_ok=True):
         return ["p", rng.choice(["done\n", "END\n", "0\n", "ab", "\n", "\x00\x00\x00\x01"]), rng.randint(100, 3000)]
     if x < 0.985 or not big_ok:
         return ["r", rng.randrange(1 << 30), rng.randint(1000, 9000)]
+    if rng.random() < 0.3:
+        # around the encoder's 1 MiB buffer: a single part written past the buffered bytes
+        return ["r", rng.randrange(1 << 30), rng.choice([1048575, 1048576, 1048577, 1048600])]
     return ["r", rng.randrange(1 << 30), rng.choice([65530, 65536, 65537, 70000])]
 
 
@@ -1052,7 +1055,7 @@ def gen_chunks(rng):
     n = rng.choice([0, 1, 1, 2, 3, 4, 6])
     out = []
     for _ in range(n):
-        out.append("" if rng.random() < 0.25 else gen_blob(rng, big_ok=False))
+        out.append("" if rng.random() < 0.25 else gen_blob(rng, big_ok=rng.random() < 0.15))
     return out
 
 
@@ -1512,8 +1515,9 @@ class Runner:
                     got["body"] = handler.read_body_bytes()
                 elif how == "body_pieces":
                     parts = []
-                    for _ in range(100000):
-                        piece = handler.read_body_bytes(7)
+                    for i in range(1000000):
+                        # small pieces first, larger ones for the tail of very large bodies
+                        piece = handler.read_body_bytes(7 if i < 3000 else 100003)
                         if not piece:
                             break
                         parts.append(piece)
